@@ -933,7 +933,7 @@ class Interp:
         if isinstance(f, Obj):
             m = self.find_member(f.cls, "__call__")
             if m is None:
-                raise Unsupported(f"calling {f}")
+                return self.ctx.dep_call(self, f, "__call__", list(args), kw)
             return self.call(BoundMethod(m, f), args, kw)
         # ---- real Python callables
         model = self.ctx.external(f)
@@ -1553,7 +1553,9 @@ class Interp:
         ex.oblige(oname + ":init", spec.inv(self, fr, z3.IntVal(0), seq))
         body_mode = ex.decide(None, f"loop[{spec.name}]:body")
         for name, mk in spec.havoc.items():
-            self.assign_name(fr, name, mk(self, fr, f"{name}@{spec.name}{'b' if body_mode else 'x'}"))
+            v = mk(self, fr, f"{name}@{spec.name}{'b' if body_mode else 'x'}")
+            if not name.startswith("$"):   # "$..." entries havoc ghost state (e.g. the FS) by side effect
+                self.assign_name(fr, name, v)
         hw0 = len(self.heap_writes)
         if body_mode:
             i = z3.Int(ex.fresh_name(f"i@{spec.name}"))
